@@ -48,6 +48,18 @@ CLAIMED = {
     text='Theorems: entry (i,j) of squareform(pdist f) is f(p_i,p_j), symmetric, zero diagonal (all n, via the condensed-index theorem); candidates within range and nearest-N selection as C07. Tie: dense matrices and truncated (sparse) spaces against exact rational distances (stored pairs exactly those with d <= max_dist, incl. max_dist equal to an exactly representable occurring distance), find_closest against the model and against exact nearest-N for every query and N, sparse vs dense, diagonal(idx), probabilistic spaces (true distances of sampled points, reproducible per seed incl. 0).',
     note='cKDTree / pdist / cdist are trusted leaves whose contract this check tests against exact arithmetic.',
     technique='Coq proof over lists + exact-rational differential oracle', ref='3 C20'),
+ 'C03': dict(
+    text='Translator tie: coq/Gen/Models.v is regenerated from models.py by tools/py2coq.py (fail-closed) on every run; bridge lemmas prove the generated definitions equal hand-written closed forms; theorems for ALL real parameters (r>0, c0>=0, admissible s, 0<=h<=h\'): value b at lag 0, monotone, within [b, b+c0], exactly the sill at/after the range (spherical, cubic), >= 95 % at the range (exponential, gaussian, stable via interval arithmetic on 1-exp(-3), 1-exp(-4)), limit b+c0 (Coquelicot is_lim), nugget additivity; cubic monotonicity by the mean value theorem with the factored derivative x(1-x)^3(21/4x^2+63/4x+14). Sum models: for every list of nugget-additive components the model built from consecutive coefficient slices equals the sum of the components plus the single nugget (with and without nugget). Translator validated by an IR round trip and by `interval` goals that evaluate the generated definitions inside Coq against models.py; oracle sweep over 14 decades of range incl. float neighbours of the range, array vs scalar calls (positional and keyword nugget), sums of 2-4 models.',
+    note='PARTIAL for Matern: Bessel K and Gamma are parameters (no Bessel functions in the installed libraries); value at 0 and nugget additivity are unconditional, bounds/monotonicity/limit are proved under the stated classical facts about rho_s, the 90 % level at the range is evaluated numerically only. Real-number semantics; rounding covered by the oracle tolerance 1e-9(|b|+c0). Axioms: the four standard-library real-number/classical axioms plus the primitive int/float constants the Interval tactic lists.',
+    technique='Python->Coq translator + bridge lemmas + real analysis in Coq (Coquelicot MVT/limits, Interval) + interval-goal evaluation + numeric oracle', ref='3 C03'),
+ 'C14': dict(
+    text='Theorems (all sizes): entry (r,c) of the difference table is |v[a,s]-v[b,t]| for the r-th location pair and c-th time-step pair (condensed order on both axes); the overwrite loop of _calc_group equals open-closed intervals (edge[i-1], edge[i]] for every non-decreasing edge list; entry i*T+j of the table is the estimator over cell (i,j) (space-major); marginals are the column / row of the table. Tie: difference table, groups and every cell against the extracted model (exact), estimator applied by the repository\'s function; oracle recomputes every cell from raw locations and time steps; marginal before any evaluation; maxlag assigned in place.',
+    note='Estimator formulas as C01. Degenerate configurations whose edges are NaN (no distance within the maximum lag) are skipped.',
+    technique='Coq proof over lists + extracted-model correspondence + brute-force cell oracle', ref='3 C14'),
+ 'C15': dict(
+    text='Translator tie for stmodels.py (sum, product, product-sum proved equal to the documented combinations of arbitrary marginal functions Vx, Vt); theorems: sample i*T+j of the lag grid carries (xbins[i], tbins[j]) - the lags of cell (i,j) of the space-major table - and NaN cells contribute no sample. Tie: the (xdata, ydata) actually passed to curve_fit (recorded by wrapping the module attribute) against the model; fitted model against the documented formula on (N,2) arrays and single lags; re-fit after a lag change.',
+    note='PARTIAL: local least-squares optimality is behaviour of scipy.optimize.curve_fit; it is TESTED against a bounded linear least-squares reference (product-sum is linear in k1,k2,k3), not proved.',
+    technique='Python->Coq translator + Coq proof over lists + recorded-fit-call correspondence + optimality test', ref='3 C15'),
 }
 
 PENDING_REASON = 'check not built yet in this round (work in progress; the property is within reach of the technique, see DESIGN.md section 3)'
